@@ -14,6 +14,8 @@ from engine import pat
 from engine.util import own_nodes, calls_with_nodes, where
 
 RULES = {
+    "R-05.15": "a scaled float is rounded, not truncated: in dns/rdtypes/ANY/LOC.py `int(...)` is never applied directly to a product or quotient that has an operand not known to be an integer (a parameter, an attribute, a float) - degrees stored as a float times 3600000 land a hair below the integer for about 4% of the millisecond values, and truncation prints them 1 ms short, so the text no longer parses back to the record",
+    "R-05.14": "the generic (\\#) text of a known type can be produced for every relativity choice: Rdataset.to_styled_text hands rd.to_generic() the style's origin unconditionally (the rule function of C09 R-09.1, run here directly because C09 adopts C05 rules)",
     "R-05.13": "optional trailing fields are left out only when ALL of them have their default: the guard that prints LOC's size/precision tail is a disjunction of `!= default` tests (one per field the tail holds), because the reader refills every missing field with its default",
     "R-05.12": "base32 text written without padding is padded back to the base32 quantum before decoding: NSEC3.from_text pads the next-hash to a multiple of 8 characters (RFC 4648), with the same modulus at the test and at the fill",
     "R-05.11": "an integer field printed through an enum's to_text (rcode, rdatatype, algorithm, scheme: ValueError outside 0..maximum) was bounded by the constructor to that enum's range: the field is built with the same enum's make(), or with an _as_uintN no wider than the enum's maximum",
@@ -867,6 +869,51 @@ def run(model, rep, tier):
                       "('Incorrect padding')", stmt="base32-quantum")
         except (AnalysisError, KeyError, ValueError) as e:
             rep.blind("R-05.12", n3.qualname, where(n3, n3.node), f"padding constants not foldable: {e}", stmt="base32-quantum")
+    from rules.c09 import check_generic_origin
+    check_generic_origin(model, rep, "R-05.14")
+    # ---------------------------------------------------------------- R-05.15
+    n15 = 0
+    for f15 in sorted(model.all_functions(), key=lambda g: g.qualname):
+        if f15.module.name != "dns.rdtypes.ANY.LOC":
+            continue
+        defs15 = {}
+        for x in ast.walk(f15.node):
+            if isinstance(x, ast.Assign) and len(x.targets) == 1 and isinstance(x.targets[0], ast.Name):
+                defs15.setdefault(x.targets[0].id, []).append(x.value)
+            elif isinstance(x, (ast.AugAssign, ast.For, ast.With, ast.NamedExpr)):
+                for t_ in ast.walk(x.target if isinstance(x, (ast.AugAssign, ast.For, ast.NamedExpr)) else ast.Tuple(elts=[i_.optional_vars for i_ in x.items if i_.optional_vars is not None], ctx=ast.Store())):
+                    if isinstance(t_, ast.Name):
+                        defs15.setdefault(t_.id, []).append(None)
+        params15 = set(f15.params())
+
+        def is_int(e, depth=0):
+            if depth > 6:
+                return False
+            if isinstance(e, ast.Constant):
+                return isinstance(e.value, int) and not isinstance(e.value, bool)
+            if isinstance(e, ast.Call) and dotted(e.func) in ("int", "round", "len", "ord") and (dotted(e.func) != "round" or len(e.args) == 1):
+                return True
+            if isinstance(e, ast.BinOp) and isinstance(e.op, ast.FloorDiv):
+                return True
+            if isinstance(e, ast.BinOp) and isinstance(e.op, (ast.Add, ast.Sub, ast.Mult, ast.Mod)):
+                return is_int(e.left, depth + 1) and is_int(e.right, depth + 1)
+            if isinstance(e, ast.UnaryOp):
+                return is_int(e.operand, depth + 1)
+            if isinstance(e, ast.Name) and e.id not in params15 and e.id in defs15:
+                return all(v is not None and is_int(v, depth + 1) for v in defs15[e.id])
+            return False
+
+        for c15 in ast.walk(f15.node):
+            if isinstance(c15, ast.Call) and dotted(c15.func) == "int" and len(c15.args) == 1:
+                n15 += 1
+                prods = [b for b in ast.walk(c15.args[0]) if isinstance(b, ast.BinOp) and isinstance(b.op, (ast.Mult, ast.Div))]
+                inside_round = isinstance(c15.args[0], ast.Call) and dotted(c15.args[0].func) == "round"
+                badp = [b for b in prods if not (is_int(b.left) and is_int(b.right) and not isinstance(b.op, ast.Div))]
+                if badp and not inside_round:
+                    rep.bad("R-05.15", f15.qualname, where(f15, c15), f"`{src(c15)[:60]}` truncates a scaled value that need not be an integer (`{src(badp[0])[:40]}`): float products sit a hair below the integer for a few percent of the values, "
+                            "so the text shows one unit less than the wire holds and does not parse back to the same record", stmt="truncated-product")
+    rep.floor("R-05.15", n15, 12)
+    rep.ok("R-05.15", "dns.rdtypes.ANY.LOC", "dns/rdtypes/ANY/LOC.py", f"{n15} int() conversions: none truncates a float product", stmt="truncated-product")
     rep.meta["explanation"] = (
         "Interval evaluation of every struct.pack argument in ~60 wire encoders against the ranges established by constructor validators (field table read from __init__), a local scan of every text "
         "producer for operations that can raise on validated data, folded escape-table comparison for quoted strings, and a per-field check that octet-wise printing is paired with octet-wise parsing. "
@@ -874,6 +921,10 @@ def run(model, rep, tier):
 
 
 WITNESSES = [
+    {"id": "c05-loc-float-truncated", "rule": "R-05.15", "file": "dns/rdtypes/ANY/LOC.py", "expect": "fires",
+     "old": "    what = round(what * 3600000)", "new": "    what = int(what * 3600000)"},
+    {"id": "c05-twin-loc-float-int-round", "rule": "R-05.15", "file": "dns/rdtypes/ANY/LOC.py", "expect": "silent",
+     "old": "    what = round(what * 3600000)", "new": "    what = int(round(what * 3600000))"},
     {"id": "c05-loc-tail-needs-all-non-default", "rule": "R-05.13", "file": "dns/rdtypes/ANY/LOC.py", "expect": "fires",
      "old": "            or self.horizontal_precision != _default_hprec\n            or self.vertical_precision != _default_vprec", "new": "            and self.horizontal_precision != _default_hprec\n            and self.vertical_precision != _default_vprec"},
     {"id": "c05-bitmap-window-256-accepted", "rule": "R-05.1", "file": "dns/rdtypes/util.py", "expect": "fires",
